@@ -2076,6 +2076,60 @@ def _inline_enum_aliases(tree: ast.Module) -> int:
   return n
 
 
+def _fold_single_use_temps(fn: ast.FunctionDef) -> int:
+  """`ret__h1 = E` / `hoisted__3 = E` (temporaries the inliner itself introduced) immediately followed by the one statement
+  that reads the temporary once, outside any binder or loop test: E is put back where it is read."""
+  n = 0
+  uses: Dict[str, int] = {}
+  for x in ast.walk(fn):
+    if isinstance(x, ast.Name):
+      uses[x.id] = uses.get(x.id, 0) + 1
+
+  def do_block(stmts: List[ast.stmt]) -> None:
+    nonlocal n
+    i = 0
+    while i < len(stmts):
+      st = stmts[i]
+      for fld in ('body', 'orelse', 'finalbody'):
+        b = getattr(st, fld, None)
+        if isinstance(b, list) and not isinstance(st, (ast.FunctionDef, ast.ClassDef)):
+          do_block(b)
+      if isinstance(st, ast.Try):
+        for h in st.handlers:
+          do_block(h.body)
+      if i + 1 < len(stmts) and isinstance(st, ast.Assign) and len(st.targets) == 1 and isinstance(st.targets[0], ast.Name) \
+          and re.match(r'^(ret__|hoisted__)', st.targets[0].id) and uses.get(st.targets[0].id) == 2:
+        name = st.targets[0].id
+        nxt = stmts[i + 1]
+        # where may the single read sit?  the header expression of the next statement only
+        if isinstance(nxt, ast.If):
+          roots = [nxt.test]
+        elif isinstance(nxt, (ast.Return, ast.Expr)) and nxt.value is not None:
+          roots = [nxt.value]
+        elif isinstance(nxt, ast.Assign):
+          roots = [nxt.value]
+        else:
+          roots = []
+        hit = None
+        for r_ in roots:
+          for x in ast.walk(r_):
+            if isinstance(x, (ast.Lambda, ast.ListComp, ast.GeneratorExp, ast.SetComp, ast.DictComp)) and any(
+                isinstance(y, ast.Name) and y.id == name for y in ast.walk(x)):
+              hit = False
+          if hit is None and any(isinstance(x, ast.Name) and x.id == name for x in ast.walk(r_)):
+            hit = r_
+        if hit:
+          _SubstName(name, st.value).visit(nxt)
+          ast.fix_missing_locations(nxt)
+          del stmts[i]
+          n += 1
+          continue
+      i += 1
+
+  do_block(fn.body)
+  return n
+
+
 def _map_to_genexp(tree: ast.Module) -> int:
   """`map(f, xs)` with one iterable and a plain function reference is `(f(x) for x in xs)`: written out so that a private
   helper passed to map() is seen (and inlined) like any other call of it."""
@@ -2293,6 +2347,7 @@ def normalise(tree: ast.Module, exclude: Optional[Set[str]] = None) -> int:
   for x in ast.walk(tree):
     if isinstance(x, ast.FunctionDef):
       if getattr(tree, '_vz_any_inlined', True):
+        n += _fold_single_use_temps(x)
         n += _fold_constant_tests(x)
       n += _split_tuple_assigns(x, records)
       if records:
